@@ -384,6 +384,23 @@ fn check_refstore(c: &RefCase, out: &mut Out, stats: &mut HashMap<String, u64>) 
         let mk = |what: &str, doc: &Value| json!({"kind":"mismatch","check":"refstore","repr":"Value","id":c.id,"q":path,"doc":initial,
             "op":o.op,"op_index":n,"node_loc":o.loc,"node":loc_display(&o.loc),"exists":o.exists,"what":what,"doc_now":doc,
             "history": c.ops.iter().take(n + 1).map(|x| format!("{} {}", x.op, cps_to_string(&x.path))).collect::<Vec<_>>()});
+        if o.op == "far" {
+            // a Normalized Path (given as text) of a location this document does not have: None from both, nothing changes
+            let before = doc.clone();
+            match guarded(|| doc.reference(path.clone()).is_some()) {
+                Ok(false) => {}
+                Ok(true) => { out.mismatch(mk("reference resolves a path to a location that does not exist (index far beyond the array)", &doc)); return; }
+                Err(p) => { out.mismatch(mk(&format!("panic in reference: {p}"), &doc)); return; }
+            }
+            let newv = o.value.to_value();
+            let wrote = guarded(|| match doc.reference_mut(path.clone()) { Some(r) => { *r = newv.clone(); true } None => false });
+            match wrote {
+                Ok(false) if doc == before => {}
+                Ok(_) => { out.mismatch(mk("reference_mut resolves a path to a location that does not exist and the document changed", &doc)); return; }
+                Err(p) => { out.mismatch(mk(&format!("panic in reference_mut: {p}"), &doc)); return; }
+            }
+            continue;
+        }
         let expected_node: Option<*const Value> = lookup(&doc, &o.loc).map(|v| v as *const Value);
         if expected_node.is_some() != o.exists {
             eprintln!("TOOL-ERROR refstore: spec and harness disagree on existence of {} in {}", loc_display(&o.loc), doc);
